@@ -325,6 +325,18 @@ def rw_trailcomment(fx, rnd):
     return b"".join(out)
 
 
+def rw_final_newline(fx, rnd):
+    """the line end (and blank lines) after the last line removed, or - if there is none - one added"""
+    d = fx.data
+    stripped = d.rstrip(b"\r\n \t")
+    if stripped != d and stripped:
+        # the last lexeme must end before the stripped tail (a body that ends with the file keeps its own bytes)
+        return stripped
+    if d and not d.endswith((b"\n", b"\r")):
+        return d + (fx.nl or b"\n")
+    return None
+
+
 def rw_newlines(fx, rnd, to):
     if fx.nl != b"\n" or to == b"\n":
         return None
@@ -402,7 +414,7 @@ def rw_parens(fx, rnd):
 
 
 C05_FAMILIES = {
-    "comments": rw_comments, "trailcomment": rw_trailcomment, "blank": rw_blank, "indent": rw_indent, "trailing": rw_trailing, "parens": rw_parens,
+    "comments": rw_comments, "final_newline": rw_final_newline, "trailcomment": rw_trailcomment, "blank": rw_blank, "indent": rw_indent, "trailing": rw_trailing, "parens": rw_parens,
     "crlf": lambda fx, rnd: rw_newlines(fx, rnd, b"\r\n"), "cr": lambda fx, rnd: rw_newlines(fx, rnd, b"\r"),
 }
 
